@@ -116,6 +116,7 @@ type FnEnc struct {
 	epochDeclared map[string]bool
 	atCallSeen    map[int]bool
 	globalFactSeen map[string]bool
+	nonNilGlobals  []string // terms of init-once pointer globals (pairwise distinct)
 	rawUsed  map[string]bool
 	fbits    map[string]string
 	heapTouch int
